@@ -95,7 +95,7 @@ def compile_case(case):
                 lf = LogicFormula.create_from(PrologString(payload))
                 dag = LogicDAG.create_from(lf)
                 return CNF.create_from(dag)
-            cnf = pl.with_timeout(front, 20)
+            cnf = pl.with_timeout(front, 180)
         else:
             cnf = build_cnf(payload)
     except BaseException as e:  # noqa  (front end is not C10's subject)
@@ -127,7 +127,7 @@ def compile_case(case):
     out["cnf_ads"] = ads
     out["other_constraints"] = other_constraints
     try:
-        nnf = pl.with_timeout(DDNNF.create_from, 30, cnf)
+        nnf = pl.with_timeout(DDNNF.create_from, 180, cnf)
     except BaseException as e:  # noqa
         if isinstance(e, (KeyboardInterrupt, SystemExit)):
             raise
@@ -180,7 +180,7 @@ def compile_case(case):
     out["nnf_other_constraints"] = nother
     out["idents"] = idents
     try:
-        res = pl.with_timeout(lambda: nnf.evaluate(semiring=SemiringProbability()), 30)
+        res = pl.with_timeout(lambda: nnf.evaluate(semiring=SemiringProbability()), 180)
         out["result"] = {str(k): float(v) for k, v in res.items()}
     except BaseException as e:  # noqa
         if isinstance(e, (KeyboardInterrupt, SystemExit)):
@@ -235,6 +235,7 @@ def plan(d, use_nnf_keys):
         return (abs(key), key > 0)
 
     has_ev = False
+    entail = []       # all-ones vectors with the complement of an evidence literal zeroed (model counting)
     try:
         for nm, key, lab in names:
             if lab not in ("evidence+", "evidence-"):
@@ -251,6 +252,9 @@ def plan(d, use_nnf_keys):
             v, s = lit_of(key)
             s = s if val else not s
             has_ev = True
+            ones = {u: (Fraction(1), Fraction(1)) for u in range(1, n + 1)}
+            ones[v] = (Fraction(1), Fraction(0)) if s else (Fraction(0), Fraction(1))
+            entail.append(vec(ones, n))
             cur = W[v]
             if (s and cur[0] == 0) or (not s and cur[1] == 0):
                 raise Inconsistent()
@@ -259,7 +263,7 @@ def plan(d, use_nnf_keys):
             else:
                 W[v] = (cur[0], Fraction(0)) if s else (Fraction(0), cur[1])
     except Inconsistent:
-        return {"inconsistent": True, "vectors": []}
+        return {"inconsistent": True, "vectors": [], "entail": []}
     queries = []
     vectors = [vec(W, n)]
     for nm, key, lab in names:
@@ -275,11 +279,13 @@ def plan(d, use_nnf_keys):
             Wq[v] = (W[v][0], Fraction(0)) if s else (Fraction(0), W[v][1])
             vectors.append(vec(Wq, n))
             queries.append((nm, "vec", len(vectors) - 1))
-    return {"inconsistent": False, "vectors": vectors, "queries": queries, "has_ev": has_ev}
+    return {"inconsistent": False, "vectors": vectors, "queries": queries, "has_ev": has_ev, "entail": entail}
 
 
-def combine(p, value_of):
+def combine(p, value_of, normalise=None):
     """value_of(vector) -> Fraction.  Returns ("err", "InconsistentEvidence") or ("ok", {name: Fraction})."""
+    if normalise is None:
+        normalise = p.get("has_ev")
     if p["inconsistent"]:
         return ("err", "InconsistentEvidence")
     z = value_of(p["vectors"][0])
@@ -293,7 +299,7 @@ def combine(p, value_of):
             res[nm] = Fraction(0)
         else:
             x = value_of(p["vectors"][idx])
-            res[nm] = x / z if p["has_ev"] else x
+            res[nm] = x / z if normalise else x
     return ("ok", res)
 
 
@@ -437,7 +443,17 @@ def judge_case(ctx, d, ans):
         real = ("err", d["eval_error"])
     else:
         real = ("ok", d["result"])
-    spec = combine(ans["plan_spec"], lambda v: lookup_wmc[v])
+    # Specification: WMC(q & e) / WMC(e).  ProbLog skips the division when there is no evidence (it assumes
+    # WMC = 1 then); evidence that the CNF entails may or may not count as evidence for that purpose
+    # (both readings give the same number whenever the unconditioned count is 1), so both are accepted.
+    ps = ans["plan_spec"]
+    strict = any(lookup_wmc[v] != models for v in ps["entail"])
+    specs = []
+    if ps["inconsistent"] or ps["has_ev"]:
+        specs.append(combine(ps, lambda v: lookup_wmc[v], True))
+    if not ps["inconsistent"] and not strict:
+        specs.append(combine(ps, lambda v: lookup_wmc[v], False))
+    spec = specs[0]
     model = combine(ans["plan_model"], lambda v: lookup_eval[v])
 
     def same(a, b):
@@ -448,7 +464,7 @@ def judge_case(ctx, d, ans):
         ks = set(a[1]) | set(b[1])
         return all(abs(float(a[1].get(k, 0)) - float(b[1].get(k, 0))) <= TOL for k in ks)
 
-    ok_spec = same(real, spec)
+    ok_spec = any(same(real, sp) for sp in specs)
     ok_model = same(real, model)
     if not ok_spec:
         klass = kl if failed else None
@@ -478,6 +494,9 @@ def run(ctx):
                         "exhaustive determinism/equivalence enumeration needs <= %d CNF variables (larger CNFs are skipped and counted)" % ctx.n(12, 15)]
     ctx.prove("C10/Props.v")
     ctx.log("proofs checked")
+    if ctx.tier == "thorough":
+        ctx.coqchk("PL.C10.Props")
+        ctx.log("coqchk done")
     NMAX = ctx.n(12, 15)
     with open(os.path.join(vf.VERIF, "gen", "c10_driver.ml")) as f:
         driver = f.read()
@@ -500,9 +519,9 @@ def run(ctx):
                 with open(os.path.join(cdir, fn)) as f:
                     r = json.load(f)
                 cases.append((r["kind"], r["input"]))
-        for _ in range(ctx.n(140, 3000)):
+        for _ in range(ctx.n(140, 1500)):
             cases.append(("prog", c10_gen.gen_program(ctx.rng, big=ctx.rng.random() < ctx.n(0.15, 0.4))))
-        for _ in range(ctx.n(80, 1200)):
+        for _ in range(ctx.n(80, 700)):
             cases.append(("cnf", c10_gen.gen_cnf(ctx.rng)))
     dumps = pl.pmap(compile_case, cases, jobs=ctx.n(8, 14))
     ctx.log("compiled %d cases" % len(dumps))
@@ -516,6 +535,9 @@ def run(ctx):
             continue
         if "harness_error" in d:
             ctx.broken.append("harness:%s on %r" % (d["harness_error"], short(d)))
+            continue
+        if "compile_error" in d and d["compile_error"].startswith("Timeout"):
+            ctx.count("compile_timeout_180s (machine load; not judged)")
             continue
         if "compile_error" in d:
             ctx.violation("DDNNF.create_from(CNF) failed: %s" % d["compile_error"], short(d), klass=None)
@@ -534,7 +556,7 @@ def run(ctx):
             p_model = {"inconsistent": True, "vectors": []}
         ones = tuple((Fraction(1), Fraction(1)) for _ in range(n))
         vectors = []
-        for v in [ones] + p_spec["vectors"] + p_model["vectors"]:
+        for v in [ones] + p_spec["vectors"] + p_spec["entail"] + p_model["vectors"]:
             if v not in vectors:
                 vectors.append(v)
         nn = {(nm, lab): k for nm, k, lab in d["nnf_names"]}
